@@ -76,7 +76,9 @@ Proof.
     { rewrite Hbuf, Hbs, Hpo, Hoff, !app_length. lia. }
     unfold ss_raw_write. destruct (w_write w (p_bytes pc)) as [w1 r]. destruct r as [written|e].
     - unfold piece_len, piece_from, piece_len.
-      destruct (N.of_nat (length (p_bytes pc)) =? written) eqn:Eq; cbn [negb].
+      (* "the whole run was accepted", whichever way round the comparison is spelled in Rust *)
+      destruct (N.of_nat (length (p_bytes pc)) =? written) eqn:Eq;
+        rewrite ?(N.eqb_sym written (N.of_nat (length (p_bytes pc)))), ?Eq; cbn [negb].
       + apply IH. exists (pre ++ pre' ++ p_bytes pc). split.
         * rewrite Hbuf, Hbs, <- !app_assoc. reflexivity.
         * rewrite Ho', Hpo, Hoff, !app_length. lia.
